@@ -5,7 +5,8 @@
    <content> what Decompressor::open + get_sample give for that file:
              -                      open fails
              .                      no samples
-             s;s;...                s = <namehex>=<c>,<c>,...   c = <cnamehex>/<lettershex | - (empty) | ! (unreadable)>
+             s;s;...                s = <namehex>=<c>,<c>,... | <namehex>=! (listed, contig metadata unloadable)
+                                    c = <cnamehex>/<lettershex | - (empty) | ! (unreadable)>
    <dest>    stdout | file | filepre (the -o file exists with other content) | baddir (-o cannot be created)
    getset  <arc> <content> <dest> <nop | p:<hex>> <namehex>...
    listset <arc> <content> <dest>
@@ -34,8 +35,8 @@ let parse_sample s =
   | None -> failwith "bad sample"
   | Some i ->
     let nm = String.sub s 0 i and cs = String.sub s (i + 1) (String.length s - i - 1) in
-    (hexs nm, if cs = "" then [] else List.map parse_contig (String.split_on_char ',' cs))
-let parse_content c : (n list * (n list * n list option) list) list option =
+    (hexs nm, if cs = "!" then None else Some (if cs = "" then [] else List.map parse_contig (String.split_on_char ',' cs)))
+let parse_content c : (n list * (n list * n list option) list option) list option =
   if c = "-" then None else if c = "." then Some []
   else Some (List.map parse_sample (String.split_on_char ';' c))
 
